@@ -201,7 +201,7 @@ func c02Run(env *verifsim.Env, raw json.RawMessage) *verifsim.Violation {
 	}
 
 	var mu sync.Mutex
-	secrets := map[string]*c02Secret{}      // marker -> knowledge
+	secrets := map[string]*c02Secret{}       // marker -> knowledge
 	revChans := map[string]map[string]bool{} // doc/rev -> channels of that revision
 	revAtts := map[string]map[string]bool{}  // doc/rev -> attachment markers it lists
 	everChans := map[string]map[string]bool{}
